@@ -61,7 +61,7 @@ def replayTok (nrec : Nat) (r : Replay) : Tok → Replay
   | .step t =>
     let m := if t < nrec then t else t + 1
     let lbl := match r.s.threads[m]? with | some th => th.pc.label | none => "nothread"
-    let r1 := { r with s := grant r.s m, fine := r.fine ++ fineSched r.s [m], labels := r.labels ++ [lbl] }
+    let r1 := { r with s := grant r.s m, fine := r.fine ++ [m], labels := r.labels ++ [lbl] }
     save r1 t
   | .noop t => save r t
   | .mark t => { r with renders := r.renders ++ [savedOf r t] }
